@@ -379,6 +379,11 @@ class AuthHandler:
     def _parse_service_accept(self, m):
         service = m.get_text()
         if service == "ssh-userauth":
+            if self.username is None:
+                # nobody asked for the service: no request to follow up with
+                raise SSHException(
+                    "Service accepted without a pending authentication request"
+                )
             self._log(DEBUG, "userauth is OK")
             m = Message()
             m.add_byte(cMSG_USERAUTH_REQUEST)
